@@ -115,7 +115,7 @@ func main() {
 	pcfg := &packages.Config{
 		Mode:       packages.LoadAllSyntax,
 		Dir:        *repo,
-		BuildFlags: []string{"-tags=verif"},
+		BuildFlags: []string{"-tags=verif,appengine,purego"},
 		Overlay:    overlay,
 		Env:        childEnv(),
 	}
